@@ -115,7 +115,7 @@ def simple_next(st, it):
         it.pos += 1
         return (False, v)
     if it.kind == 'range':
-        cur, end, incl = it.extra
+        cur, end, incl = it.extra[:3]
         c = (cur.v <= end.v if cur.signed else z3.ULE(cur.v, end.v)) if incl else \
             (cur.v < end.v if cur.signed else z3.ULT(cur.v, end.v))
         if incl and len(it.extra) > 3 and it.extra[3]:
